@@ -205,7 +205,7 @@ func (g *gen) candidate() string {
 		kinds = append(kinds, "exec", "exec", "exec", "stdout", "stdout", "stderr", "helpercmd")
 	}
 	if g.o.Exec && g.o.Background {
-		kinds = append(kinds, "bg", "bg", "wait", "kill")
+		kinds = append(kinds, "bg", "bg", "wait", "kill", "bgwait", "bgwait")
 	}
 	if g.p.CustomCmds {
 		kinds = append(kinds, "probe", "probe", "probe", "failcmd", "cemit", "setenv", "defer", "getenv")
@@ -412,6 +412,16 @@ func (g *gen) candidate() string {
 			return neg + "exec vmain block " + flags + " " + spec + "\nexec vmain waitfile " + ready
 		}
 		return neg + "exec vmain " + g.helperArgs() + " " + spec
+	case "bgwait":
+		// start a background command with a chosen exit status and wait for it right away
+		g.nbg++
+		name := fmt.Sprintf("w%d", g.nbg)
+		code := rapid.SampledFrom([]string{"0", "0", "1", "3"}).Draw(t, "bgcode")
+		w := "wait " + name
+		if rapid.Bool().Draw(t, "waitall") {
+			w = "wait"
+		}
+		return neg + "exec vmain emit -o bg\\n -x " + code + " &" + name + "&\n" + w
 	case "wait":
 		names, _ := g.m.BlockedBackground()
 		if len(names) > 0 {
@@ -563,14 +573,17 @@ func Gen(t *rapid.T, o Options) Script {
 					ok = false
 				}
 			}
-			chosen = cand
 			if c.Unmodelled() != "" {
-				continue // try to stay inside the modelled language
+				continue // stay inside the modelled language (it also excludes scripts that would hang)
 			}
+			chosen = cand
 			intendFail := i == failAt || (g.m.Failed() && rapid.IntRange(0, 4).Draw(t, "failagain") == 0)
 			if ok != intendFail {
 				break
 			}
+		}
+		if chosen == "" {
+			chosen = "exists ."
 		}
 		for _, l := range strings.Split(chosen, "\n") {
 			g.m.Step(l)
